@@ -19,13 +19,13 @@ structure Edge where
   id : Nat
   a : Int
   b : Int
-deriving DecidableEq, Repr, BEq, Inhabited
+deriving DecidableEq, Repr, Inhabited
 
 /-- a traversal of an edge: `fwd = true` runs a → b (the direction of the input line) -/
 structure DEdge where
   e : Edge
   fwd : Bool
-deriving DecidableEq, Repr, BEq, Inhabited
+deriving DecidableEq, Repr, Inhabited
 
 def DEdge.src (d : DEdge) : Int := if d.fwd then d.e.a else d.e.b
 def DEdge.dst (d : DEdge) : Int := if d.fwd then d.e.b else d.e.a
@@ -118,8 +118,13 @@ def startAt (directed : Bool) (es : List Edge) (n : Int) :
 def isStartNode (directed : Bool) (es : List Edge) (n : Int) : Bool :=
   degree es n != 2 || (directed && (outCount es n == 2 || inCount es n == 2))
 
+def insertInt (x : Int) : List Int → List Int
+  | [] => [x]
+  | y :: r => if x ≤ y then x :: y :: r else y :: insertInt x r
+
+/-- distinct node keys in increasing order (the iteration order of the `std::map` of nodes); structural, so `decide` can run it -/
 def nodesOf (es : List Edge) : List Int :=
-  ((es.flatMap fun e => [e.a, e.b]).eraseDups).mergeSort (· ≤ ·)
+  (es.flatMap fun e => [e.a, e.b]).foldr (fun x acc => if acc.contains x then acc else insertInt x acc) []
 
 def mergeModel (directed : Bool) (es : List Edge) : List Chain :=
   let nodes := nodesOf es
